@@ -22,7 +22,7 @@
      built_doc k a r cu the document the constructor builds from root r and evidence cu
      ko_ref_item r      the IMAGE / COMPOSITE item a key object selection holds for object r *)
 From Coq Require Import String ZArith List Bool Permutation.
-From HD Require Import Base.Val C15_Model C15_Proofs C15_Proofs_Doc C15_Proofs_Seg C15_Proofs_Ext.
+From HD Require Import Base.Val C15_Model C15_Proofs C15_Proofs_Doc C15_Proofs_Seg C15_Proofs_Ext C15_Proofs_Ko.
 Import ListNotations.
 Open Scope Z_scope.
 
@@ -719,3 +719,253 @@ Example C15_coded_entries_example :
     entry_view k_name_entry (d_content d) = (1, Some [4; 5; 17021; 27021]).
 Proof. exact entry_example. Qed.
 Print Assumptions C15_coded_entries_example.
+
+(* SESSION 7.  The end-to-end statement with the remaining read-backs of the PARSED document as conjuncts
+   (was: separate theorem C15_parsed_keeps_evidence): series read-back (every reported instance's series is
+   reported, no series twice, the exact lists), previous versions with multiplicity, flags, recorded arguments *)
+Theorem C15_sr_document_full : forall c a d, sr_init c a = Ok d ->
+  exists root d',
+    single_root (a_content a) = Some root /\ d_content d = root /\
+    srread d = Ok (c, d') /\
+    descendants (d_content d') = descendants root /\
+    i_tag (d_content d') = i_tag root /\ i_vt (d_content d') = i_vt root /\
+    (root_typed root -> d' = d) /\
+    (forall st se u k, In (st, se, u, k) (get_evidence d' true) <->
+       referenced root u /\ first_evd (a_evidence a) u = Some (Evd u k st se)) /\
+    (forall st se u k, In (st, se, u, k) (get_evidence d' false) <->
+       (referenced root u \/ a_record a = true) /\ first_evd (a_evidence a) u = Some (Evd u k st se)) /\
+    NoDup (map uid4 (get_evidence d' false)) /\
+    (forall u, referenced root u -> In u (map e_uid (a_evidence a))) /\
+    (holds_3d c = false -> forall it, In it (descendants root) -> i_vt it <> SCOORD3D) /\
+    (a_verified a = true ->
+       exists n o, a_observer a = Some n /\ a_org a = Some o /\ d_observer d' = Some (n, o)) /\
+    (* NEW: series read-back of the parsed document *)
+    (forall b st se u k, In (st, se, u, k) (get_evidence d' b) -> In (st, se) (get_evidence_series d' b)) /\
+    (forall b st se, In (st, se) (get_evidence_series d' b) -> exists u k, In (st, se, u, k) (get_evidence d' b)) /\
+    (forall b, NoDup (get_evidence_series d' b)) /\
+    get_evidence_series d' true = flatten_series (d_current d) /\
+    get_evidence_series d' false =
+      flatten_series (d_current d) ++
+      filter (fun p => negb (existsb (pair_eqb p) (flatten_series (d_current d)))) (flatten_series (d_other d)) /\
+    (* NEW: previous versions, with multiplicity, as given *)
+    match a_previous a with
+    | None => d_pred d' = None
+    | Some pv => exists p, d_pred d' = Some p /\ Permutation (flatten p) (map tup pv) /\
+                           NoDup (map fst p) /\ NoDup (flatten_series p)
+    end /\
+    (* NEW: flags and recorded arguments of the parsed document are the arguments *)
+    d_complete d' = a_complete a /\ d_final d' = a_final a /\ d_verified d' = a_verified a /\
+    d_extras d' = record_extras (a_extras a).
+Proof. exact sr_document_full. Qed.
+Print Assumptions C15_sr_document_full.
+
+Example C15_sr_document_full_example :
+  exists d d', sr_init Enhanced e2e_args = Ok d /\ srread d = Ok (Enhanced, d') /\
+    get_evidence_series d' true = [(1, 11); (2, 21)] /\
+    get_evidence_series d' false = [(1, 11); (2, 21)] /\
+    get_evidence d' false = [(1, 11, 1, 0); (2, 21, 2, 2); (1, 11, 3, 0)] /\
+    d_pred d' = Some [(1, [(5, [(20, 2); (20, 2)])])] /\
+    d_complete d' = true /\ d_final d' = false /\ d_verified d' = true /\
+    d_extras d' = Recorded (Some 3) (Some 4) (Some [5; 6]) None.
+Proof. exact e2e_full_example. Qed.
+Print Assumptions C15_sr_document_full_example.
+
+(* key object selections WITH observer contexts (vocabulary, C15_Proofs_Ko.v: ko_ctx_root = the root item
+   built: title, template 2010, then person context items, device context items, description, one item per
+   selected object; ctx_plain o = the identifying attributes of o are leaves and not IMAGE / COMPOSITE /
+   WAVEFORM; ctx_canonical canon o = their names are a selection of canon in canon's order; has_required t o =
+   the required attribute t is there; ctx_given o = (observer type, names of the attributes) as given;
+   flt_ok flt c = context c passes the observer_type filter) *)
+Theorem C15_key_object_context_accepted_iff : forall title tx person device descr refs root,
+  ko_content_ctx title tx person device descr refs = Ok root <->
+  wrong_type person 0 = false /\ wrong_type device 1 = false /\ refs <> [] /\
+  root = ko_ctx_root title tx person device descr refs.
+Proof. exact ko_content_ctx_iff. Qed.
+Print Assumptions C15_key_object_context_accepted_iff.
+
+Theorem C15_key_object_context_refused_iff : forall title tx person device descr refs k,
+  ko_content_ctx title tx person device descr refs = Err k <->
+  k = "ValueError"%string /\ (wrong_type person 0 = true \/ wrong_type device 1 = true \/ refs = []).
+Proof. exact ko_content_ctx_refused_iff. Qed.
+Print Assumptions C15_key_object_context_refused_iff.
+
+Theorem C15_key_object_context_none : forall title tx descr refs,
+  ko_content_ctx title tx None None descr refs = ko_content title tx descr refs.
+Proof. exact ko_content_ctx_none. Qed.
+Print Assumptions C15_key_object_context_none.
+
+Theorem C15_key_object_context_evidence : forall ev ts title tx person device descr refs,
+  ctx_plain person -> ctx_plain device ->
+  ko_init ev ts (ko_ctx_root title tx person device descr refs) =
+  map_ok (fun d => set_content d (ko_ctx_root title tx person device descr refs))
+         (ko_init ev ts (ko_ctx_root title tx None None descr refs)).
+Proof. exact ko_ctx_evidence. Qed.
+Print Assumptions C15_key_object_context_evidence.
+
+Theorem C15_key_object_context_references : forall title tx person device descr refs vf cf,
+  ctx_plain person -> ctx_plain device ->
+  ko_get_references vf cf (ko_ctx_root title tx person device descr refs) =
+  ko_get_references vf cf (ko_ctx_root title tx None None descr refs).
+Proof. exact ko_ctx_get_references. Qed.
+Print Assumptions C15_key_object_context_references.
+
+Theorem C15_observer_contexts_spec : forall title tx person device descr refs root flt,
+  ko_content_ctx title tx person device descr refs = Ok root ->
+  ctx_ok person -> ctx_ok device ->
+  has_required 121008 person -> has_required 121012 device ->
+  ko_observer_contexts flt root =
+  Ok (filter (flt_ok flt) (ctx_expect person_attr_tags person ++ ctx_expect device_attr_tags device)).
+Proof. exact observer_contexts_spec. Qed.
+Print Assumptions C15_observer_contexts_spec.
+
+Theorem C15_observer_contexts_roundtrip : forall title tx person device descr refs root flt,
+  ko_content_ctx title tx person device descr refs = Ok root ->
+  ctx_canonical person_attr_tags person -> ctx_canonical device_attr_tags device ->
+  has_required 121008 person -> has_required 121012 device ->
+  ko_observer_contexts flt root = Ok (filter (flt_ok flt) (ctx_given person ++ ctx_given device)).
+Proof. exact observer_contexts_roundtrip. Qed.
+Print Assumptions C15_observer_contexts_roundtrip.
+
+Example C15_observer_contexts_device_role_kept :
+  exists root,
+    ko_content_ctx 113000 [] None (Some role_ctx) None [(1, 0, true)] = Ok root /\
+    ctx_plain (Some role_ctx) /\ has_required 121012 (Some role_ctx) /\
+    ctx_canonical device_attr_tags (Some role_ctx) /\
+    In (Item CODE t_device_role 5 None [] []) (i_kids root) /\
+    ko_observer_contexts None root = Ok [(1, [121012; t_device_role])] /\
+    ctx_given (Some role_ctx) = [(1, [121012; t_device_role])].
+Proof. exact observer_contexts_device_role_kept. Qed.
+Print Assumptions C15_observer_contexts_device_role_kept.
+
+Theorem C15_key_object_recorded_frame : forall ev ts x root,
+  ko_init_x ev ts x root = map_ok (fun d => set_recorded_doc d (ko_record_extras x)) (ko_init ev ts root).
+Proof. exact ko_extras_frame. Qed.
+Print Assumptions C15_key_object_recorded_frame.
+
+Theorem C15_key_object_recorded_verdict : forall ev ts x root k,
+  ko_init_x ev ts x root = Err k <-> ko_init ev ts root = Err k.
+Proof. exact ko_extras_verdict. Qed.
+Print Assumptions C15_key_object_recorded_verdict.
+
+Theorem C15_key_object_recorded : forall ev ts x root d, ko_init_x ev ts x root = Ok d ->
+  exists d0, ko_init ev ts root = Ok d0 /\ d = set_recorded_doc d0 (ko_record_extras x) /\
+    d_content d = root /\ d_current d = d_current d0 /\ d_other d = [] /\
+    w_institution (d_extras d) = x_institution x /\
+    w_department (d_extras d) = (match x_institution x with Some _ => x_department x | None => None end) /\
+    w_codes (d_extras d) = None /\ w_requests (d_extras d) = x_requests x.
+Proof. exact ko_extras_recorded. Qed.
+Print Assumptions C15_key_object_recorded.
+
+Theorem C15_key_object_context_document : forall ev ts title tx person device descr refs x root d,
+  ko_content_ctx title tx person device descr refs = Ok root ->
+  ko_init_x ev ts x root = Ok d ->
+  ctx_plain person -> ctx_plain device ->
+  (* the document contains the selection given: contexts, description, references, in this order *)
+  d_content d = root /\
+  i_kids root = opt_items person ++ opt_items device ++ descr_items descr ++ map ko_ref_item refs /\
+  (* written and parsed by KeyObjectSelectionDocument.from_dataset it is the document written *)
+  ko_from_dataset true d = Ok d /\
+  (* its evidence is that of the same selection WITHOUT observer contexts; other evidence never *)
+  (exists root0 d0, ko_content title tx descr refs = Ok root0 /\ ko_init ev ts root0 = Ok d0 /\
+                    d_current d = d_current d0) /\
+  d_other d = [] /\
+  (* every selected object was supplied, all under one study *)
+  (exists st, forall u, referenced root u -> exists e, first_evd ev u = Some e /\ e_study e = st) /\
+  (* get_references lists the selected objects as given, never a context item *)
+  ko_get_references None None root = Ok (map ko_ref_item refs) /\
+  (* recorded arguments *)
+  d_extras d = ko_record_extras x /\
+  (* get_observer_contexts returns the contexts given (names the parser knows, constructor order) *)
+  (ctx_canonical person_attr_tags person -> ctx_canonical device_attr_tags device ->
+   has_required 121008 person -> has_required 121012 device ->
+   forall flt, ko_observer_contexts flt (d_content d) =
+               Ok (filter (flt_ok flt) (ctx_given person ++ ctx_given device))).
+Proof. exact ko_ctx_document. Qed.
+Print Assumptions C15_key_object_context_document.
+
+Example C15_key_object_context_example :
+  exists root d,
+    ko_content_ctx 113000 [4; 5] (Some kx_person) (Some kx_device) (Some 1) [(1, 0, true); (2, 1, false); (1, 0, true)] = Ok root /\
+    ko_init_x ko_ex_ev true (Extras (Some 3) (Some 4) None (Some [7; 8])) root = Ok d /\
+    ctx_plain (Some kx_person) /\ ctx_plain (Some kx_device) /\
+    ctx_canonical person_attr_tags (Some kx_person) /\ ctx_canonical device_attr_tags (Some kx_device) /\
+    has_required 121008 (Some kx_person) /\ has_required 121012 (Some kx_device) /\
+    length (i_kids root) = 12%nat /\
+    ko_observer_contexts (Some 1) (d_content d) = Ok [(1, [121012; 121013; 121017])] /\
+    d_extras d = Recorded (Some 3) (Some 4) None (Some [7; 8]).
+Proof. exact ko_ctx_example. Qed.
+Print Assumptions C15_key_object_context_example.
+
+(* the document's own study / patient / study id / accession number are those of the FIRST supplied
+   record (sr_identity / ko_identity), referenced or not *)
+Theorem C15_document_identity : forall c a d, sr_init c a = Ok d ->
+  exists e rest, a_evidence a = e :: rest /\ sr_identity c a = Ok (e_study e).
+Proof. exact sr_identity_spec. Qed.
+Print Assumptions C15_document_identity.
+
+Theorem C15_document_identity_refused_iff : forall c a k, sr_identity c a = Err k <-> sr_init c a = Err k.
+Proof. exact sr_identity_err. Qed.
+Print Assumptions C15_document_identity_refused_iff.
+
+Theorem C15_key_object_identity : forall ev ts root d, ko_init ev ts root = Ok d ->
+  exists e rest, ev = e :: rest /\ ko_identity ev ts root = Ok (e_study e).
+Proof. exact ko_identity_spec. Qed.
+Print Assumptions C15_key_object_identity.
+
+Theorem C15_key_object_identity_refused_iff : forall ev ts root k, ko_identity ev ts root = Err k <-> ko_init ev ts root = Err k.
+Proof. exact ko_identity_err. Qed.
+Print Assumptions C15_key_object_identity_refused_iff.
+
+Theorem C15_key_object_identity_study_refuted :
+  exists ev refs root d s,
+    ko_content 113000 [] None refs = Ok root /\ ko_init ev true root = Ok d /\
+    (forall u, referenced root u -> exists e, first_evd ev u = Some e /\ e_study e = 1) /\
+    ko_identity ev true root = Ok s /\ s <> 1.
+Proof. exact ko_identity_study_refuted. Qed.
+Print Assumptions C15_key_object_identity_study_refuted.
+
+(* find_content_items by NAME when coded entries come in every form: value (CodeValue / LongCodeValue /
+   URNCodeValue), scheme designator and scheme version must all agree *)
+Theorem C15_find_by_name : forall n q recursive node,
+  find_content_items_n true n q recursive node =
+  Ok (filter (matches_n n q) (if recursive then descendants node else i_kids node)).
+Proof. exact find_name_spec. Qed.
+Print Assumptions C15_find_by_name.
+
+Theorem C15_find_by_name_refuses_iff : forall has_cs n q recursive node k,
+  find_content_items_n has_cs n q recursive node = Err k <-> has_cs = false /\ k = "AttributeError"%string.
+Proof. exact find_name_refused_iff. Qed.
+Print Assumptions C15_find_by_name_refuses_iff.
+
+Theorem C15_name_matches_iff : forall n it, name_matches n it = true <->
+  i_tag it = n_code n /\ name_form (entry_feats it) = n_form n /\
+  name_version (entry_feats it) = n_version n /\ n_scheme n = true.
+Proof. exact name_matches_iff. Qed.
+Print Assumptions C15_name_matches_iff.
+
+Theorem C15_find_by_plain_name : forall c q it,
+  name_form (entry_feats it) = 0 -> name_version (entry_feats it) = 0 ->
+  matches_n (Some (QName c 0 0 true)) q it = matches (Query (Some c) (q_vt q) (q_rel q)) it.
+Proof. exact matches_n_plain. Qed.
+Print Assumptions C15_find_by_plain_name.
+
+Example C15_find_by_name_example :
+  let tree := Item CONTAINER 1 0 None []
+                [Item TEXT 5 1 None [(14, [2; 12])] [];
+                 Item CONTAINER 5 1 None [] [Item NUM 5 2 None [(14, [12; 10218])] []];
+                 Item TEXT 5 1 None [(14, [3])] []] in
+  find_content_items_n true (Some (QName 5 0 2 true)) (Query None None None) true tree =
+    Ok [Item NUM 5 2 None [(14, [12; 10218])] []] /\
+  find_content_items_n true (Some (QName 5 2 2 true)) (Query None None None) true tree =
+    Ok [Item TEXT 5 1 None [(14, [2; 12])] []] /\
+  find_content_items_n true (Some (QName 5 0 0 true)) (Query None None None) false tree =
+    Ok [Item CONTAINER 5 1 None [] [Item NUM 5 2 None [(14, [12; 10218])] []]] /\
+  find_content_items_n true (Some (QName 5 3 0 false)) (Query None None None) true tree = Ok [].
+Proof. exact find_name_example. Qed.
+Print Assumptions C15_find_by_name_example.
+
+(* every (study, series) reported by get_evidence_series holds an instance reported by get_evidence *)
+Theorem C15_series_has_instance : forall c a d, sr_init c a = Ok d ->
+  forall b st se, In (st, se) (get_evidence_series d b) -> exists u k, In (st, se, u, k) (get_evidence d b).
+Proof. exact doc_series_has_instance. Qed.
+Print Assumptions C15_series_has_instance.
